@@ -90,6 +90,8 @@ const CONTROL_HASH: u64 = 0x0C01_7201;
 struct SinkLogger;
 static SINK: SinkLogger = SinkLogger;
 static LOGGED: std::sync::atomic::AtomicU64 = std::sync::atomic::AtomicU64::new(0);
+/// workers found blocked on a lock that a parked worker held (see sched.rs)
+static STALLS: std::sync::atomic::AtomicU64 = std::sync::atomic::AtomicU64::new(0);
 
 impl log::Log for SinkLogger {
     fn enabled(&self, _m: &log::Metadata) -> bool {
@@ -814,6 +816,15 @@ impl Drop for FinishGuard<'_> {
 }
 
 fn check_c(inp: &Inputs, plan: &Plan, env: &Env) -> Result<(CStats, Option<Found>), String> {
+    let before = STALLS.load(std::sync::atomic::Ordering::Relaxed);
+    let (st, f) = check_c_inner(inp, plan, env)?;
+    let stalled = STALLS.load(std::sync::atomic::Ordering::Relaxed) > before;
+    // once the scheduler had to take the processor back from a blocked worker the interleaving
+    // is no longer fully controlled: which symptom shows up varies, so they share one class
+    Ok((st, f.map(|f| if stalled { Found { class: "shared-run-diverges-after-scheduler-stall", detail: format!("{} [{}]", f.detail, f.class) } } else { f })))
+}
+
+fn check_c_inner(inp: &Inputs, plan: &Plan, env: &Env) -> Result<(CStats, Option<Found>), String> {
     let mut st = CStats::default();
     // isolated references, before
     let mut refs: Vec<Vec<LoadExec>> = Vec::new();
@@ -911,6 +922,7 @@ fn check_c(inp: &Inputs, plan: &Plan, env: &Env) -> Result<(CStats, Option<Found
         if canon::cast(&file) != ast0 {
             return Err("FILE-MUTATED".into());
         }
+        STALLS.fetch_add(sched.stalls(), std::sync::atomic::Ordering::Relaxed);
         Ok((outs, sched.summary()))
     })?;
     let (outs, (trace, yields, switches, switch_labels, overrun)) = match run {
@@ -1332,6 +1344,14 @@ pub fn run_shard(ctx: &ShardCtx, rep: &mut Report) {
                             continue;
                         }
                         rep.count("probe.c.multi_worker_runs");
+                        let stalls = STALLS.swap(0, std::sync::atomic::Ordering::Relaxed);
+                        let run_stalled = stalls > 0;
+                        if stalls > 0 {
+                            rep.add("c.workers_found_blocked_on_a_library_lock", stalls);
+                            if !rep.notes.iter().any(|n| n.starts_with("C12c:")) {
+                                rep.notes.push("C12c: a worker that was given the processor never reached a yield point because the library held a lock across a yield point of a parked worker; the scheduler took the processor back (results are still compared, but those interleavings are no longer fully under its control)".into());
+                            }
+                        }
                         rep.count("fault.sched.configured");
                         if st.switches > 0 {
                             rep.count("fault.sched.fired");
@@ -1351,7 +1371,10 @@ pub fn run_shard(ctx: &ShardCtx, rep: &mut Report) {
                         if let Some(f) = found {
                             rep.count("violating_cases");
                             let v0 = violation("c", &inp, &f, json!({}));
-                            if minimised.insert(v0.signature.clone()) {
+                            if minimised.insert(v0.signature.clone()) && run_stalled {
+                                // the interleaving was not fully controlled: keep the scenario as it is
+                                rep.violation(violation("c", &inp, &f, json!({"plan": plan_json(&plan), "env": env.to_json(), "scheduler_stalled": true})));
+                            } else if !run_stalled && minimised.contains(&v0.signature) && !rep.has_signature(&v0.signature) {
                                 // fewer workers / tasks first
                                 let mut best = plan.clone();
                                 let mut changed = true;
@@ -1382,7 +1405,9 @@ pub fn run_shard(ctx: &ShardCtx, rep: &mut Report) {
                                 let test = move |c: &Inputs| -> Option<Found> { check_c(c, &b2, &e2).ok().and_then(|x| x.1) };
                                 let m = minimise_inputs(&inp, class, &test);
                                 let f2 = test(&m).unwrap_or(f);
-                                rep.violation(violation("c", &m, &f2, json!({"plan": plan_json(&best), "env": env.to_json()})));
+                                // minimisation runs may have stalled as well
+                                let stalled = run_stalled || STALLS.swap(0, std::sync::atomic::Ordering::Relaxed) > 0;
+                                rep.violation(violation("c", &m, &f2, json!({"plan": plan_json(&best), "env": env.to_json(), "scheduler_stalled": stalled})));
                             }
                         }
                     }
@@ -1408,7 +1433,34 @@ pub fn replay(sc: &J) -> Result<Option<(String, String)>, String> {
             let steps: Vec<Step> = sc["history"].as_array().map(|a| a.iter().map(step_from_json).collect()).unwrap_or_default();
             check_b(&inp, &steps, &env)?.1
         }
-        "c" => check_c(&inp, &plan_from_json(&sc["plan"]), &env)?.1,
+        "c" => {
+            // When the library holds a lock across a yield point the scheduler has to take the
+            // processor back from a blocked worker (sched.rs) and the interleaving is no longer
+            // fully under its control.  Such a scenario is replayed up to 12 times and counts as
+            // reproduced if the same divergence from the isolated runs shows up again.  This
+            // path is never taken on a tree whose library does not block workers.
+            let tries = if sc["scheduler_stalled"].as_bool().unwrap_or(false) { 40 } else { 1 };
+            let want = sc["__class"].as_str().map(|s| s.to_string());
+            let mut found = None;
+            for _ in 0..tries {
+                let f = check_c(&inp, &plan_from_json(&sc["plan"]), &env)?.1;
+                let hit = match (&f, &want) {
+                    (Some(f), Some(w)) => f.class == w,
+                    (Some(_), None) => true,
+                    _ => false,
+                };
+                if f.is_some() && found.is_none() {
+                    found = f;
+                    if hit {
+                        break;
+                    }
+                } else if hit {
+                    found = f;
+                    break;
+                }
+            }
+            found
+        }
         other => return Err(format!("unknown sub-check {}", other)),
     };
     Ok(f.map(|f| (f.class.to_string(), f.detail)))
